@@ -128,6 +128,73 @@ func c07SchedScenario(nCallers int, channels []string) *sched.Scenario {
 	}}
 }
 
+// c07CancelScenario: one caller hands two packs of ONE channel over, one after the other; the context of the first call
+// may be cancelled while the call is in flight (a caller that gives up), the downstream may reject either pack. Whatever
+// the first call returns, the second call is told the outcome of its own pack.
+func c07CancelScenario() *sched.Scenario {
+	return &sched.Scenario{Name: "same-channel,first-call-cancelled", Run: func(t *testing.T, ctl *sched.Ctl) sched.Outcome {
+		fd := &fakeDown{}
+		failed := map[uint64]bool{}
+		fd.answer = func(kind string, p interface{}) error {
+			rp := p.(*api.ReplicateMessageParam)
+			if ctl.Choose("down:"+rp.ChannelName, "answer", false, 2, 1) == 1 {
+				failed[rp.EndTs] = true
+				return c07ErrDown
+			}
+			return nil
+		}
+		w, _ := newVerifWriter(fd, "", nil)
+		mk := func(i int) *msgstream.MsgPack {
+			ts := uint64(7000 + i)
+			p := dmlPack(ts, buildDML("Insert", opVals{DB: "db1", Coll: "a", Part: "p", TS: ts}, i+1), buildDML("TimeTick", opVals{TS: ts}, 0))
+			for _, ep := range p.EndPositions {
+				ep.ChannelName = "chA"
+			}
+			return p
+		}
+		packs := []*msgstream.MsgPack{mk(0), mk(1)}
+		calls := []*c07Call{{}, {}}
+		ctx1, cancel1 := context.WithCancel(context.Background())
+		cancelled, inFirst := false, false
+		go func() {
+			ctl.Point("caller", "start", true)
+			inFirst = true
+			calls[0].cp, calls[0].tp, calls[0].err = w.HandleReplicateMessage(ctx1, "chA", packs[0])
+			inFirst = false
+			calls[0].done = true
+			ctl.Point("caller", "second", true)
+			calls[1].cp, calls[1].tp, calls[1].err = w.HandleReplicateMessage(context.Background(), "chA", packs[1])
+			calls[1].done = true
+		}()
+		ctl.Actions = func() []sched.Action {
+			if cancelled || !inFirst {
+				return nil
+			}
+			return []sched.Action{{Label: "cancel-first-call", Cost: 1, Do: func() { cancelled = true; cancel1() }}}
+		}
+		ctl.Loop(func() bool { return calls[0].done && calls[1].done })
+		var out sched.Outcome
+		for i, c := range calls {
+			ts := packs[i].EndTs
+			switch {
+			case !c.done:
+				out.Violations = append(out.Violations, sched.Violation{Sig: "C07/sched/stuck", Detail: fmt.Sprintf("call %d never returned", i)})
+			case i == 0 && cancelled && c.err != nil && !failed[ts]:
+				// a cancelled call may report the cancellation
+			case failed[ts] && c.err == nil:
+				out.Violations = append(out.Violations, sched.Violation{Sig: "C07/sched/error-lost", Detail: fmt.Sprintf("call %d: the downstream rejected its pack but it returned checkpoint %q and no error (first call cancelled: %v)", i, c.cp, cancelled)})
+			case !failed[ts] && c.err != nil:
+				out.Violations = append(out.Violations, sched.Violation{Sig: "C07/sched/foreign-error", Detail: fmt.Sprintf("call %d: the downstream accepted its pack but it returned error %v (first call cancelled: %v)", i, c.err, cancelled)})
+			case !failed[ts] && string(c.cp) != string(packs[i].EndPositions[len(packs[i].EndPositions)-1].MsgID):
+				out.Violations = append(out.Violations, sched.Violation{Sig: "C07/sched/foreign-answer", Detail: fmt.Sprintf("call %d returned checkpoint %q, its pack ends at %q", i, c.cp, packs[i].EndPositions[len(packs[i].EndPositions)-1].MsgID)})
+			}
+		}
+		out.Summary = fmt.Sprintf("cancelled=%v failed=%v errs=[%v %v]", cancelled, len(failed), calls[0].err != nil, calls[1].err != nil)
+		out.Nontrivial = cancelled || len(failed) > 0
+		return out
+	}}
+}
+
 func TestVerifC07Sched(t *testing.T) {
 	res := ev.New("C07", "sched")
 	defer res.Write()
@@ -141,6 +208,7 @@ func TestVerifC07Sched(t *testing.T) {
 	scs := []*sched.Scenario{
 		c07SchedScenario(2, []string{"chA", "chB"}),
 		c07SchedScenario(3, []string{"chA", "chB", "chC"}),
+		c07CancelScenario(),
 	}
 	e := sched.NewExplorer(t, bound)
 	e.Shard, e.NShard = ev.Shard()
@@ -153,7 +221,7 @@ func TestVerifC07Sched(t *testing.T) {
 		e.Explore(sc)
 	}
 	schedReport(res, e, "C07")
-	res.Rule = "sched engine: 2 and 3 concurrent HandleReplicateMessage callers on distinct channels; scheduling points = caller start (free) and the downstream answer of each channel's sender goroutine (2 alternatives: ok | error, the error costs one deviation); all schedules within the deviation bound; oracle per execution: every caller gets its own checkpoint or its own error, every pack reaches the downstream exactly once; non-trivial = executions in which at least two downstream calls happened"
+	res.Rule = "sched engine: 2 and 3 concurrent HandleReplicateMessage callers on distinct channels; scheduling points = caller start (free) and the downstream answer of each channel's sender goroutine (2 alternatives: ok | error, the error costs one deviation); all schedules within the deviation bound; oracle per execution: every caller gets its own checkpoint or its own error, every pack reaches the downstream exactly once; plus one caller handing two packs of one channel over in sequence, the context of the first call cancelled at any point while it is in flight (the second call must be told the outcome of its own pack); non-trivial = executions in which at least two downstream calls happened"
 }
 
 // c07DecodesTo decodes the serialized messages of a downstream call the way the proxy does and compares them with the
